@@ -14,6 +14,7 @@ mod c02_props;
 mod c03_frames;
 mod c05_spans;
 mod c15_codecs;
+mod c20_slot;
 #[cfg(not(kani))]
 mod table;
 #[cfg(not(kani))]
